@@ -3,6 +3,7 @@ package diodes
 import (
 	"context"
 	"sync"
+	"sync/atomic"
 )
 
 // Waiter will use a conditional mutex to alert the reader to when data is
@@ -12,6 +13,9 @@ type Waiter struct {
 	mu  sync.Mutex
 	c   *sync.Cond
 	ctx context.Context
+
+	sets    uint64 // number of completed Set calls
+	waiting uint32 // 1 while the reader is about to wait or is waiting
 }
 
 // WaiterConfigOption can be used to setup the waiter.
@@ -54,7 +58,14 @@ func NewWaiter(d Diode, opts ...WaiterConfigOption) *Waiter {
 // to wake up any readers.
 func (w *Waiter) Set(data GenericDataType) {
 	w.Diode.Set(data)
-	w.c.Broadcast()
+	atomic.AddUint64(&w.sets, 1)
+	if atomic.LoadUint32(&w.waiting) == 1 {
+		// The mutex keeps the Broadcast from falling between the reader's
+		// decision to wait and its Wait, where it would be lost.
+		w.mu.Lock()
+		w.c.Broadcast()
+		w.mu.Unlock()
+	}
 }
 
 // Next returns the next data point on the wrapped diode. If there is not any
@@ -65,13 +76,21 @@ func (w *Waiter) Next() GenericDataType {
 	defer w.mu.Unlock()
 
 	for {
+		sets := atomic.LoadUint64(&w.sets)
 		data, ok := w.Diode.TryNext()
 		if !ok {
 			if w.isDone() {
 				return nil
 			}
 
-			w.c.Wait()
+			// Announce the wait first and only wait if no Set completed since
+			// before the failed TryNext: either that Set is noticed here, or
+			// it sees the announcement and broadcasts under the mutex.
+			atomic.StoreUint32(&w.waiting, 1)
+			if atomic.LoadUint64(&w.sets) == sets {
+				w.c.Wait()
+			}
+			atomic.StoreUint32(&w.waiting, 0)
 			continue
 		}
 		return data
